@@ -18,7 +18,7 @@ import json
 import re
 import warnings
 
-from . import common as C
+from . import common as C, genarith
 
 IMPORTS = "From SV Require Import Run_IrvVis.\nOpen Scope Z_scope."
 ANCHORS = [("shangrla/core/IRVVisualisationUtils.py",
@@ -1060,5 +1060,7 @@ def run(ctx, res):
                 "distinct by (c, S, assertions)")
     res.samples = [tree_case_json(k) for k in tcases[:3]] + [parse_case_json(k) for k in pcases[:1]]
     res.stats = stats
+    # regenerated tie: whole-function skeletons of the anchored functions + lemmas against the hand model
+    genarith.regenerate(ctx.pid, "tree_skeletons", res)
     res.assumptions = ["Python set iteration order is not part of the property: children are sorted by candidate before comparison",
                        "tag strings are parsed back into (numbers, Confirmed/Unconfirmed) parts by the harness; json is trusted"]
